@@ -29,7 +29,8 @@ import numpy as np
 
 RULE = ("translator: matrix-granularity trace of kalman.correct validated on 60 random inputs per run; "
         "numeric support: random (n in 1..20, m in 1..6) cases with P well-conditioned / cond up to 1e10 / "
-        "rank-deficient / zero, H full / rank-deficient / zero rows, R = s*SPD with s in 1e-8..1e8, "
+        "rank-deficient / zero with overall scale 1e-8..1e8, H full / rank-deficient / zero rows, R = s*SPD with s in "
+        "1e-8..1e8 relative to the scale of P (all tolerances homogeneous in the scales), "
         "block partitions of the observations in every order, C and Fortran memory order; a case is "
         "distinct by (n, m, kinds, block sizes, order, seed index)")
 
@@ -59,6 +60,8 @@ def make_case(rng, small=False, idx=0):
     n = rng.randint(1, 4) if small else rng.choice([1, 2, 3, 4, 5, 6, 8, 10, 12, 15, 17, 20])
     m = rng.randint(1, 3) if small else rng.randint(1, 6)
     pk = rng.choice(['well', 'well', 'ill', 'rankdef', 'zero', 'diag'])
+    # overall scale of P log-uniform over 16 decades; R is drawn 1e-8 .. 1e8 RELATIVE to it (below)
+    pscale = 10 ** rng.uniform(-8, 8)
     if pk == 'well':
         P = _sym_from_eigs(rng, [10 ** rng.uniform(-1, 1) for _ in range(n)])
     elif pk == 'ill':
@@ -71,6 +74,7 @@ def make_case(rng, small=False, idx=0):
         P = np.zeros((n, n))
     else:
         P = np.diag([10 ** rng.uniform(-3, 3) for _ in range(n)])
+    P = P * pscale
     hk = rng.choice(['full', 'full', 'rankdef', 'zerorow', 'select'])
     H = _randn(rng, m, n)
     if hk == 'rankdef' and m > 1:
@@ -90,15 +94,18 @@ def make_case(rng, small=False, idx=0):
         left -= s
     if len(sizes) > 3:
         sizes = sizes[:2] + [sum(sizes[2:])]
-    scale = 10 ** rng.uniform(-8, 8)
+    rel = 10 ** rng.uniform(-8, 8)
+    scale = pscale * rel
     R = np.zeros((m, m))
     o = 0
     for s in sizes:
         R[o:o + s, o:o + s] = scale * _sym_from_eigs(rng, [10 ** rng.uniform(-1, 1) for _ in range(s)])
         o += s
-    x = _randn(rng, n) * 10 ** rng.uniform(-2, 2)
-    z = _randn(rng, m) * 10 ** rng.uniform(-2, 2)
+    sd = math.sqrt(pscale)
+    x = _randn(rng, n) * sd * 10 ** rng.uniform(-2, 2)
+    z = _randn(rng, m) * sd * 10 ** rng.uniform(-2, 2)
     return dict(idx=idx, n=n, m=m, pkind=pk, hkind=hk, sizes=sizes, order=rng.choice(['C', 'F']),
+                pscale=pscale, rscale_rel=rel,
                 x=x, P=P, z=z, H=H, R=R)
 
 
@@ -202,7 +209,7 @@ def _arr(c, k):
     return np.array(c[k], dtype=float, order=c.get('order', 'C'))
 
 
-def check_case(c, exact=None, verbose=False):
+def check_case(c, exact=None, verbose=False, stats=None):
     """returns (fails, worst) : list of (what, detail dict) and the worst error/tolerance ratio."""
     from pyins import kalman
     fails = []
@@ -212,6 +219,9 @@ def check_case(c, exact=None, verbose=False):
         tol = MARGIN * bound
         ratio = err / tol if tol > 0 else (0.0 if err == 0 else math.inf)
         worst[0] = max(worst[0], ratio)
+        if stats is not None:
+            k = what.split(' (')[0]
+            stats[k] = max(stats.get(k, 0.0), ratio if math.isfinite(ratio) else 1e300)
         if verbose:
             print(f"  {what}: error {err:.3e}  tolerance {tol:.3e}")
         if not err <= tol:
@@ -316,7 +326,7 @@ def check_case(c, exact=None, verbose=False):
 # ---------------------------------------------------------------------------
 
 def _hexcase(c):
-    out = {k: c[k] for k in ('idx', 'n', 'm', 'pkind', 'hkind', 'sizes', 'order') if k in c}
+    out = {k: c[k] for k in ('idx', 'n', 'm', 'pkind', 'hkind', 'sizes', 'order', 'pscale', 'rscale_rel', 'exact_nmax') if k in c}
     for k in 'xPzHR':
         a = np.asarray(c[k], dtype=float)
         out[k] = [float(v).hex() for v in a.ravel()]
@@ -334,20 +344,23 @@ def _unhex(o):
 def numeric_statements(r, count, seed_off, small_frac=0.45, exact_nmax=4):
     rng = random.Random(r.seed * 1000003 + seed_off)
     fails, worst = [], 0.0
-    dist = {}
+    dist, stats = {}, {}
     for i in range(count):
         c = make_case(rng, small=(rng.random() < small_frac), idx=i)
         c['exact_nmax'] = exact_nmax
-        f, w = check_case(c)
+        f, w = check_case(c, stats=stats)
         worst = max(worst, w) if math.isfinite(w) else worst
         key = (c['n'], c['m'], c['pkind'], c['hkind'], tuple(c['sizes']), c['order'], i)
         r.case(key, sample=dict(n=c['n'], m=c['m'], P=c['pkind'], H=c['hkind'], blocks=c['sizes'],
                                 order=c['order']))
         for k in (f"n={c['n']}", f"m={c['m']}", 'P:' + c['pkind'], 'H:' + c['hkind'],
+                  f"Pscale=1e{int(math.floor(math.log10(c['pscale']) / 4) * 4)}..",
+                  f"R/P=1e{int(math.floor(math.log10(c['rscale_rel']) / 4) * 4)}..",
                   f"blocks={len(c['sizes'])}", 'order:' + c['order']):
             dist[k] = dist.get(k, 0) + 1
         for what, det in f:
             fails.append((what, dict(key='C07-numeric', case=_hexcase(c), detail=det)))
+    dist['_worst_ratio_by_statement'] = {k: float(f'{v:.3g}') for k, v in sorted(stats.items())}
     return fails, worst, dist
 
 
@@ -366,8 +379,8 @@ def check(r):
         "sequential == joint is proved for two blocks in both orders (arbitrary block sizes, singular P allowed); "
         "more blocks follow by iterating the theorem (numerically checked for up to 3 blocks, all orders)",
     ]
-    gen_mx.run_generate(r, ['Kalman'])
-    r.prove('Props/C07.v')
+    ok = gen_mx.run_generate(r, ['Kalman'])
+    gen_mx.prove_or_undischarged(r, ok, 'Props/C07.v')     # never proves against a stale Gen file
     n = 600 if r.tier == "quick" else 30000
     fails, worst, dist = numeric_statements(r, n, 7, exact_nmax=4 if r.tier == "quick" else 8)
     r.coverage['distribution'] = dist
